@@ -44,10 +44,22 @@ type childPlan struct {
 }
 
 type recorder struct {
-	mu    sync.Mutex
-	calls []call
-	plan  *childPlan
-	recvs int
+	mu     sync.Mutex
+	calls  []call
+	plan   *childPlan
+	recvs  int
+	events []string // calls on the child's client stream and on the caller's server stream, in order
+}
+
+// event appends one call to the order log: o open, ch Header(), H SendHeader, h SetHeader, r Recv, s Send,
+// ct Trailer(), T SetTrailer.
+func (r *recorder) event(e string) {
+	if r == nil {
+		return
+	}
+	r.mu.Lock()
+	r.events = append(r.events, e)
+	r.mu.Unlock()
 }
 
 func (r *recorder) record(c call) {
@@ -106,12 +118,16 @@ type fakeClientStream struct {
 }
 
 func (s *fakeClientStream) Header() (metadata.MD, error) {
+	s.conn.rec.event("ch")
 	if s.plan.HeaderErr != nil {
 		return nil, s.plan.HeaderErr
 	}
 	return s.plan.Header, nil
 }
-func (s *fakeClientStream) Trailer() metadata.MD     { return s.plan.Trailer }
+func (s *fakeClientStream) Trailer() metadata.MD {
+	s.conn.rec.event("ct")
+	return s.plan.Trailer
+}
 func (s *fakeClientStream) CloseSend() error         { return s.plan.OpenErr } // the call fails after the request was sent
 func (s *fakeClientStream) Context() context.Context { return s.ctx }
 func (s *fakeClientStream) SendMsg(m any) error {
@@ -121,11 +137,13 @@ func (s *fakeClientStream) SendMsg(m any) error {
 		cl = proto.Clone(req)
 	}
 	s.conn.rec.record(call{Client: s.conn.id, Method: s.method, Req: cl, CtxOK: s.ctx.Value(ctxKey{}) == "marker", Ctx: s.ctx})
+	s.conn.rec.event("o")
 	return nil
 }
 func (s *fakeClientStream) RecvMsg(m any) error {
 	s.conn.rec.mu.Lock()
 	s.conn.rec.recvs++
+	s.conn.rec.events = append(s.conn.rec.events, "r")
 	s.conn.rec.mu.Unlock()
 	if s.next < len(s.plan.Msgs) {
 		msg := s.plan.Msgs[s.next]
@@ -158,23 +176,28 @@ type fakeServerStream struct {
 	sends        int
 	trailerSet   bool
 	trailer      metadata.MD
+	rec          *recorder // shared order log (may be nil)
 }
 
 func (s *fakeServerStream) SetHeader(md metadata.MD) error {
+	s.rec.event("h")
 	s.setHeader = append(s.setHeader, md)
 	return nil
 }
 func (s *fakeServerStream) SendHeader(md metadata.MD) error {
+	s.rec.event("H")
 	s.headerCalled = true
 	s.header = md
 	return s.sendHeaderErr
 }
 func (s *fakeServerStream) SetTrailer(md metadata.MD) {
+	s.rec.event("T")
 	s.trailerSet = true
 	s.trailer = md
 }
 func (s *fakeServerStream) Context() context.Context { return s.ctx }
 func (s *fakeServerStream) SendMsg(m any) error {
+	s.rec.event("s")
 	i := s.sends
 	s.sends++
 	if i == s.failAt {
